@@ -62,8 +62,11 @@ pub struct Job {
   pub name: String,
   pub dev_bound: u32,
   pub max_execs: u64,
-  /// is a panic escaping from the library a violation of *this* property?
-  /// (C05, C10: yes; elsewhere the execution is counted as aborted)
+  /// is a panic / a call that never returns a violation of *this* property?
+  /// Default yes: none of the explored histories re-enters a pipeline in a way
+  /// the library does not support, so a panic or a hang means the documented
+  /// behaviour was not delivered. `tolerate_panics()` turns it into "aborted,
+  /// not judged" for a job that deliberately does unsupported things.
   pub panic_is_violation: bool,
   /// short signature used in the class key of a hang
   pub sig: String,
@@ -77,7 +80,7 @@ impl Job {
     name: impl Into<String>,
     run: impl Fn(&mut Chooser, &mut Obs) + Send + Sync + 'static,
   ) -> Job {
-    { let name: String = name.into(); Job { sig: name.clone(), name, root: vec![], dev_bound: 0, max_execs: u64::MAX, panic_is_violation: false, run: Box::new(run) } }
+    { let name: String = name.into(); Job { sig: name.clone(), name, root: vec![], dev_bound: 0, max_execs: u64::MAX, panic_is_violation: true, run: Box::new(run) } }
   }
   pub fn devs(mut self, d: u32) -> Job {
     self.dev_bound = d;
@@ -93,6 +96,10 @@ impl Job {
   }
   pub fn panics_violate(mut self) -> Job {
     self.panic_is_violation = true;
+    self
+  }
+  pub fn tolerate_panics(mut self) -> Job {
+    self.panic_is_violation = false;
     self
   }
   pub fn cap(mut self, n: u64) -> Job {
